@@ -61,6 +61,21 @@ def gen_episode(rng, big=False):
             g.request(outcome="200", **client_variants(rng, key, how))
         if ph + 1 < phases:
             g.add(w=1)        # append a backend: a new phase with a larger pool
+    if len(g.names) >= 2 and rng.random() < 0.4:
+        # one backend is ejected for a second: a phase with a smaller candidate set, then — once the window has run out,
+        # and before anything has looked at that backend again — a phase with the full set: within each of the two
+        # every client keeps its backend (phase numbers 100 / 102: the append rule of the oracle does not apply)
+        victim = rng.choice(g.names)
+        g.eject(name=victim, dur=lbgen.SEC)
+        for phase_no, reps in ((100, (1, 2)), (102, (2, 3))):
+            if phase_no == 102:
+                g.advance(lbgen.SEC + 1)
+            g.ops.append("# phase %d" % phase_no)
+            order = [gr for gr in groups for _ in range(rng.randint(*reps))]
+            rng.shuffle(order)
+            for gi, key, how in order:
+                g.ops.append("# grp %d %d" % (g.tid + 1, gi))
+                g.request(outcome="200", **client_variants(rng, key, how))
     ops = g.finish()
     if rng.random() < 0.3:
         # clients served concurrently: each keeps its backend whatever the others do (last op)
